@@ -426,3 +426,84 @@ Proof.
   unfold p', upd. destruct (String.eqb_spec x r1) as [->|_]; [contradiction|].
   destruct (String.eqb_spec x r0) as [->|_]; [contradiction|reflexivity].
 Qed.
+
+(* decision procedures for the hypotheses (used by the examples) *)
+Lemma sortedb_sound l : sortedb l = true -> StronglySorted Z.lt l.
+Proof.
+  induction l as [|a l IH]; intros H; [constructor|]. cbn [sortedb] in H. apply andb_true_iff in H as [H1 H2].
+  specialize (IH H2). constructor; [exact IH|].
+  destruct l as [|b l]; [constructor|]. apply Z.ltb_lt in H1. inversion IH as [|? ? _ Hall]; subst.
+  constructor; [exact H1|]. eapply Forall_impl; [|exact Hall]. cbn. intros; lia.
+Qed.
+
+Fixpoint nodupb (l : list rank) : bool :=
+  match l with [] => true | x :: l' => negb (existsb (String.eqb x) l') && nodupb l' end.
+Lemma nodupb_sound l : nodupb l = true -> NoDup l.
+Proof.
+  induction l as [|x l IH]; intros H; [constructor|]. cbn [nodupb] in H. apply andb_true_iff in H as [H1 H2].
+  constructor; [|apply IH; exact H2]. intros Hin. apply negb_true_iff in H1.
+  assert (existsb (String.eqb x) l = true) by (apply existsb_exists; exists x; split; [exact Hin|apply String.eqb_refl]). congruence.
+Qed.
+
+Definition term_okb (r : rank) (tm : term) : bool :=
+  forallb (fun t => nodupb (rem t) && (negb (holds r t) || participates r t)) tm.
+Lemma term_okb_sound r tm : term_okb r tm = true -> term_ok r tm.
+Proof.
+  intros H t Ht. unfold term_okb in H. rewrite forallb_forall in H. specialize (H t Ht).
+  apply andb_true_iff in H as [H1 H2]. split; [apply nodupb_sound; exact H1|].
+  intros Hh. rewrite Hh in H2. exact H2.
+Qed.
+
+Definition leader_okb (r : rank) (k : nat) (tm : term) : bool :=
+  match nth_error tm k with Some ld => participates r ld && sortedb (keys (children (cur ld))) | None => false end.
+Lemma leader_okb_sound r k tm : leader_okb r k tm = true -> leader_ok r k tm.
+Proof.
+  unfold leader_okb, leader_ok. destruct (nth_error tm k) as [ld|]; [|discriminate]. intros H.
+  apply andb_true_iff in H as [H1 H2]. exists ld. split; [reflexivity|]. split; [exact H1|apply sortedb_sound; exact H2].
+Qed.
+
+Section Examples.
+Local Open Scope string_scope.
+(* non-vacuity: Z[m] = A[k,m] * B[k] * C[n], K occupancy-partitioned with leader A, chunks of 2; the leader's K fiber is
+   {1,3,4,7,9} (boundaries 1,4,9), the follower B holds {0,3,5,9,12}: 0 lies below the first boundary and is dropped, 5
+   lies in a partition where B is alone, 12 beyond the leader's last element; loop order K1, N, K0, M (N between the levels) *)
+Definition ex_A : tstate := {| rem := ["K"; "M"];
+  cur := Node [(1, Node [(0, Leaf 2)]); (3, Node [(1, Leaf 5)]); (4, Node [(0, Leaf 1); (1, Leaf 3)]); (7, Node [(1, Leaf 4)]); (9, Node [(0, Leaf 6)])] |}.
+Definition ex_B : tstate := {| rem := ["K"]; cur := Node [(0, Leaf 7); (3, Leaf 11); (5, Leaf 13); (9, Leaf 2); (12, Leaf 3)] |}.
+Definition ex_C : tstate := {| rem := ["N"]; cur := Node [(0, Leaf 1); (2, Leaf 10)] |}.
+Definition ex_tm : term := [ex_A; ex_B; ex_C].
+Definition ex_point (k1 k0 m n : Z) : point :=
+  fun x => if String.eqb x "K1" then k1 else if String.eqb x "K0" then k0 else if String.eqb x "M" then m
+           else if String.eqb x "N" then n else 0.
+
+Example bounds_split_example :
+  leader_bounds 2 0 ex_tm = [1; 4; 9] /\
+  cur (nth 1 (occ_split "K" "K1" "K0" 2 0 ex_tm) dummy_t) =
+    Node [(1, Node [(3, Leaf 11)]); (4, Node [(5, Leaf 13)]); (9, Node [(9, Leaf 2); (12, Leaf 3)])] /\
+  bounds_split (chunk_starts 2 (children (cur ex_A))) (children (cur ex_A)) = equal_split 6 2 (children (cur ex_A)) /\
+  map fst (equal_split 6 2 (children (cur ex_A))) = [1; 4; 9].
+Proof. repeat split; vm_compute; reflexivity. Qed.
+
+Example occ_nest_example :
+  let L' := ["K1"; "N"; "K0"; "M"] in
+  let tm' := occ_split "K" "K1" "K0" 2 0 ex_tm in
+  term_ok "K" ex_tm /\ leader_ok "K" 0 ex_tm /\ wf L' [tm'] /\
+  (forall t, In t ex_tm -> ~ In "K1" (rem t) /\ ~ In "K0" (rem t)) /\
+  (* A[3,1] * B[3] * C[2] = 5 * 11 * 10 at the consistent point K1=1, K0=3 *)
+  sum_at (ex_point 1 3 1 2) (run L' [tm']) = 550 /\ term_den ex_tm (collapse "K" "K0" (ex_point 1 3 1 2)) = 550 /\
+  (* the same lower coordinate under another upper coordinate: nothing *)
+  sum_at (ex_point 4 3 1 2) (run L' [tm']) = 0 /\
+  (* A[9,0] * B[9] * C[0] = 6 * 2 * 1 *)
+  sum_at (ex_point 9 9 0 0) (run L' [tm']) = 12 /\
+  map fst (run L' [tm']) =
+    [[("K1", 1); ("N", 0); ("K0", 3); ("M", 1)]; [("K1", 1); ("N", 2); ("K0", 3); ("M", 1)];
+     [("K1", 9); ("N", 0); ("K0", 9); ("M", 0)]; [("K1", 9); ("N", 2); ("K0", 9); ("M", 0)]].
+Proof.
+  cbv zeta. split; [apply term_okb_sound; vm_compute; reflexivity|].
+  split; [apply leader_okb_sound; vm_compute; reflexivity|].
+  split; [apply swf_wf; vm_compute; reflexivity|].
+  split.
+  { intros t [<-|[<-|[<-|[]]]]; split; cbn; intros H; repeat (destruct H as [H|H]; [discriminate|]); exact H. }
+  repeat split; vm_compute; reflexivity.
+Qed.
+End Examples.
